@@ -6,7 +6,7 @@ from . import common as C
 
 LEVEL = "exploration"
 RULE = ("population monitor on the family named in the statement: random rotated quadratics (eigenvalues in [1,100]), minimiser uniform "
-        "in [-4,4]^D, start uniform in the plausible box [-5,5]^D, hard box [-20,20]^D, D uniform in 1..5, DEFAULT options, seeded. The "
+        "in [-4,4]^D, start uniform in the plausible box [-5,5]^D, hard box [-20,20]^D, D uniform in 1..5, DEFAULT options, seeded; about a third of the runs are preceded, in the same process, by a non-default PILOT instance of the same dimension (short budget / coarse tolerances, constructed or run) from which the default-option run must inherit nothing. The "
         "target wrapper keeps the running best and the evaluation index at which it first came within 1e-2 of the known minimum. "
         "Oracle: (a) fraction of runs with f(result.x)-f* <= 1e-3 >= 0.90; (b) panel median of (evaluations-to-1e-2)/D <= 40; (c) EVERY "
         "run: result.fval <= value at the mesh-snapped start (first call). Non-trivial/distinct = distinct (D, condition-number decade, "
@@ -26,8 +26,17 @@ def cases(tier, seed):
             eig[0], eig[-1] = 1.0, 10 ** rng.uniform(0, 2)
         Q, _ = np.linalg.qr(rng.normal(size=(D, D)))
         A = Q @ np.diag(eig) @ Q.T
-        out.append({"D": D, "A": A.tolist(), "xmin": rng.uniform(-4, 4, D).tolist(), "x0": rng.uniform(-5, 5, D).tolist(),
-                    "seed": int(rng.integers(0, 2**31 - 1)), "cond": float(max(eig) / min(eig))})
+        case = {"D": D, "A": A.tolist(), "xmin": rng.uniform(-4, 4, D).tolist(), "x0": rng.uniform(-5, 5, D).tolist(),
+                "seed": int(rng.integers(0, 2**31 - 1)), "cond": float(max(eig) / min(eig))}
+        rng2 = gen.rng_for(seed, "C06", 50000 + i)
+        if rng2.random() < 0.35:
+            # a PILOT: an earlier, deliberately non-default BADS object of the same dimension in the same process (a short
+            # exploratory run, a coarse run) - the default-option run that follows must not inherit anything from it
+            case["pilot"] = {"options": {k: v for k, v in (("max_fun_evals", int(rng2.choice([15, 20, 30]))), ("tol_mesh", float(rng2.choice([1e-2, 1e-1]))),
+                                                            ("tol_fun", float(rng2.choice([0.1, 1.0]))), ("max_iter", int(rng2.choice([3, 5]))))
+                                         if rng2.random() < 0.6},
+                             "run": bool(rng2.random() < 0.6)}
+        out.append(case)
     return out
 
 
@@ -51,6 +60,12 @@ def run_case(case):
             st["hit"] = st["n"]
         return v
 
+    pil = case.get("pilot")
+    if pil is not None:
+        po = dict(pil["options"], display="off")
+        pb = BADS(lambda x: float(np.sum(np.asarray(x, float) ** 2)), None, -20 * np.ones((1, D)), 20 * np.ones((1, D)), -5 * np.ones((1, D)), 5 * np.ones((1, D)), options=po)
+        if pil["run"]:
+            pb.optimize()
     b = BADS(f, np.array([case["x0"]]), -20 * np.ones((1, D)), 20 * np.ones((1, D)), -5 * np.ones((1, D)), 5 * np.ones((1, D)),
              options={"display": "off", "random_seed": case["seed"]})
     r = b.optimize()
@@ -60,7 +75,7 @@ def run_case(case):
     if not (r["fval"] <= st["first"]):
         viol.append({"key": "C06/result-worse-than-snapped-start", "detail": {"fval": r["fval"], "start_value": st["first"]}})
     dist = float(np.linalg.norm(np.array(case["x0"]) - xm))
-    return {"status": "ok", "gap": gap, "hit": st["hit"], "ncalls": st["n"], "first": st["first"], "fval": r["fval"], "viol": viol, "cnt": {"C06.runs": 1},
+    return {"status": "ok", "gap": gap, "hit": st["hit"], "ncalls": st["n"], "first": st["first"], "fval": r["fval"], "viol": viol, "cnt": {"C06.runs": 1, "C06.runs_preceded_by_a_non_default_pilot_instance": int(pil is not None)},
             "cell": [D, int(np.floor(np.log10(case["cond"]) * 2)), int(min(9, dist / (2.0 * np.sqrt(D))))]}
 
 
